@@ -4,7 +4,7 @@ import os, json
 RULE = ("MC: the permission rules of Relay.tla imply the relay invariants in a small closed world (any proposed single-record "
         "change or tunnel change, 3 nodes, at most 1 (thorough: 2) relay records in the world). T: seeded schedules on 4 complete nodes (initiator, relay, target, hostile "
         "authenticated peer sending create-relay requests/responses with arbitrary addresses and indexes; reordering, "
-        "duplicates, replays, tunnel closes, time); every step's relay records, tunnel set and forwarded datagrams validated by "
+        "duplicates, replays, tunnel closes, time); tunnel churn (a node that forgets its tunnel with the relay and comes back, the relay closing one of two tunnels with a peer); every step's relay records, relay index table (HostMap.Relays), tunnel set and forwarded datagrams validated by "
         "TLC against the permission specification; distinct = traces")
 ASSUMPTIONS = [
     "Relay.tla is a permission specification: it does not predict which records a node creates, it decides whether the change a "
@@ -36,7 +36,10 @@ def run(ctx):
                 prev = x
                 break
         key = 'relay:%s:%s' % (ln.get('ev'), ln.get('typ', ln.get('why', '')))
-        if fl.get('violated') and fl['violated'] != 'TraceAccepted':
+        stale = [x for x in (ln.get('ridx') or []) if x[1] == 0 or not any(r['lidx'] == x[0] and r['tun'] == x[1] for r in ln.get('recs', []))]
+        if stale:
+            key = 'relay:index-outlives-tunnel'
+        elif fl.get('violated') and fl['violated'] != 'TraceAccepted':
             key = 'relay:inv:%s' % fl['violated']
         elif ln.get('ev') == 'Recv' and prev is not None:
             old = {(r['peer'], r['addr'], r.get('tun')): r for r in prev['recs']}
@@ -46,8 +49,9 @@ def run(ctx):
                 key = 'relay:record-changed-by-third-party'
         ctx.violation(key, 'node %s, step %s: not permitted by Relay.tla (records before: %s, after: %s, forwarded to %s)' %
                       (ln.get('n'), json.dumps({k: ln.get(k) for k in ('ev', 's', 'typ', 'why')}),
-                       json.dumps(prev['recs'] if prev else None), json.dumps(ln.get('recs')), ln.get('fwd')), fl)
-    ctx.require_actions('ev:Recv', 'typ:control', 'typ:relay', 'hostile-control')
+                       json.dumps(prev['recs'] if prev else None), json.dumps(ln.get('recs')), ln.get('fwd')) +
+                      (' -- relay index table still holds %s (index, tunnel; 0 = a tunnel the node no longer has)' % stale if stale else ''), fl)
+    ctx.require_actions('ev:Recv', 'typ:control', 'typ:relay', 'hostile-control', 'churn:relay-closes-one-of-two', 'churn:relay-indexes-before-close')
 
 
 META = {
